@@ -163,7 +163,7 @@ def recurFrom (t : Str) : CRes Rule :=
   (recurFromGo (splitOnChar ';' t) []).map (CDict.cdInit upper)
 
 /-- keys in the order `to_ical` writes them, values unchanged -/
-def canon (r : Rule) : Rule := recurItems r
+def recurCanon (r : Rule) : Rule := recurItems r
 
 /-- what a part class makes of a caller's value: vFrequency and vWeekday upper-case on output, so the
     decoded value is the upper-cased one; every other kind is kept -/
@@ -187,16 +187,11 @@ def normRule (r : Rule) : Rule := r.map (fun kv => (kv.1, kv.2.map normVal))
   are case-insensitive): it is sound for "the encoded text is in the grammar", which is the claim.
 -/
 
-/-- `[plus / minus] 1*<k>DIGIT` with the value between `lo` and `hi` -/
+/-- `[plus / minus] 1*<k>DIGIT` with the value between `lo` and `hi` (`signed = false`: no sign allowed;
+    a sign character then fails the digit test) -/
 def rfcOrd (signed : Bool) (maxDigits lo hi : Nat) (t : Str) : Bool :=
-  let body : Option Str :=
-    match t with
-    | '+' :: r => if signed then some r else none
-    | '-' :: r => if signed then some r else none
-    | r => some r
-  match body with
-  | none => false
-  | some b => isDigitStr b && decide (b.length ≤ maxDigits) && decide (lo ≤ ofDigits b) && decide (ofDigits b ≤ hi)
+  let b := if signed && (t.head? == some '+' || t.head? == some '-') then t.tail else t
+  isDigitStr b && decide (b.length ≤ maxDigits) && decide (lo ≤ ofDigits b) && decide (ofDigits b ≤ hi)
 
 /-- `enddate = date / date-time` -/
 def rfcEnddate (t : Str) : Bool := dateText t || dateTimeText t
